@@ -52,6 +52,27 @@ def enc(v):
     raise ValueError("cannot encode event %r" % (v,))
 
 
+RAWS = []        # (what, the caller's container handed to a constructor, snapshot taken before the call)
+
+
+def keep(what, obj):
+    import copy
+    import numpy as np
+    RAWS.append((what, obj, obj.copy() if isinstance(obj, np.ndarray) else copy.deepcopy(obj)))
+    return obj
+
+
+def inputs_unchanged():
+    import numpy as np
+    for what, obj, snap in RAWS:
+        same = np.array_equal(obj, snap) if isinstance(obj, np.ndarray) else (obj == snap and type(obj) is type(snap))
+        if same and isinstance(obj, dict):
+            same = list(obj.items()) == list(snap.items())
+        if not same:
+            return "%s handed to a constructor was changed: %r -> %r" % (what, snap, obj)
+    return True
+
+
 def build(spec):
     """one distribution from a spec, through the public entry point and input representation the spec
     names (defaults: plain dict / list / float data)"""
@@ -70,22 +91,22 @@ def build(spec):
     rep = spec.get("rep")
     if k == "dict":
         if rep == "pairs_list":
-            return DictDistribution(list(zip(ev, ws)))
+            return DictDistribution(keep("pair list", list(zip(ev, ws))))
         if rep == "kwargs":
             return DictDistribution(**dict(zip(ev, ws)))
         if rep == "copy":
             return DictDistribution(DictDistribution(dict(zip(ev, ws))))
-        return DictDistribution(dict(zip(ev, ws)))      # later duplicates overwrite
+        return DictDistribution(keep("dict", dict(zip(ev, ws))))      # later duplicates overwrite
     if k == "pairs":
         if rep == "generator":
             return DictDistribution.from_pairs((e, w) for e, w in zip(ev, ws))
         if rep == "tuple":
             return DictDistribution.from_pairs(tuple(zip(ev, ws)))
-        return DictDistribution.from_pairs(list(zip(ev, ws)))
+        return DictDistribution.from_pairs(keep("pair list", list(zip(ev, ws))))
     if k == "uniform":
         seq = spec.get("seq", "list")
         sup = {"tuple": lambda: tuple(ev), "range": lambda: range(len(ev)),
-               "str": lambda: "".join(ev)}.get(seq, lambda: list(ev))()
+               "str": lambda: "".join(ev)}.get(seq, lambda: keep("support list", list(ev)))()
         if spec.get("classmethod"):
             return DictDistribution.uniform(sup)
         if spec.get("check_unique") is False:
@@ -100,9 +121,9 @@ def build(spec):
             return SoftmaxDistribution(list(zip(ev, ws)))
         if rep == "kwargs":
             return SoftmaxDistribution(**dict(zip(ev, ws)))
-        return SoftmaxDistribution(dict(zip(ev, ws)))
+        return SoftmaxDistribution(keep("score dict", dict(zip(ev, ws))))
     if k == "table":
-        dom = tuple(ev) if spec.get("dom") == "tuple" else list(ev)
+        dom = tuple(ev) if spec.get("dom") == "tuple" else keep("domain list", list(ev))
         dt = int if spec.get("num") == "int" else float
         via = spec.get("via_row")
         via = "2d" if via is True else via
@@ -121,7 +142,7 @@ def build(spec):
             if spec.get("touch"):
                 list(pt.items()); pt["r1"]; list(pt["r0"].items())
             return pt[("r0", "")] if via == "3d_tuple" else pt["r0"][""]
-        t = TableDistribution(data=np.array(ws, dtype=dt),
+        t = TableDistribution(data=keep("data array", np.array(ws, dtype=dt)),
                               table_index=TableIndex(field_names=["e"], field_domains=[dom]))
         if spec.get("touch"):
             list(t.items()); len(t); t.table_index.field_domains
@@ -192,6 +213,7 @@ def one(case, pl):
     from msdm.core.distributions.distributions import FiniteDistribution
     from msdm.core.distributions import UniformDistribution
     universe = [dec(e) for e in case["universe"]]
+    del RAWS[:]
     if case.get("shadow"):
         # another object of the same class over the same events with other numbers, built and USED first
         def touch():
@@ -226,13 +248,23 @@ def one(case, pl):
         r["mass"] = guarded(lambda: fj(sum(d.values())))
         r["is_normalized"] = guarded(lambda: bool(d.is_normalized()))
         res[name] = r
-    res["marginalize"] = guarded(lambda: items_of(d1.marginalize(lambda e: F[e])))
-    res["chain"] = guarded(lambda: items_of(d1.chain(lambda e: build(KERN[e]))))
-    res["condition"] = guarded(lambda: items_of(d1.condition(lambda e: W[e])))
+    first = {}
+    def keep_first(name, fn):
+        def go():
+            first[name] = fn()
+            return items_of(first[name])
+        return guarded(go)
+    res["marginalize"] = keep_first("marginalize", lambda: d1.marginalize(lambda e: F[e]))
+    if case.get("kern_shared") and case["kern"]:
+        shared_k = build(case["kern"][0][1])        # ONE distribution object returned for every event
+        res["chain"] = guarded(lambda: items_of(d1.chain(lambda e: shared_k)))
+    else:
+        res["chain"] = guarded(lambda: items_of(d1.chain(lambda e: build(KERN[e]))))
+    res["condition"] = keep_first("condition", lambda: d1.condition(lambda e: W[e]))
     res["joint"] = guarded(lambda: items_of(d1.joint(d2)))
     res["mix"] = guarded(lambda: items_of(d1 * a | d2 * b))
     res["rmul"] = guarded(lambda: items_of(a * d1))
-    res["and"] = guarded(lambda: items_of(d1 & d2))
+    res["and"] = keep_first("and", lambda: d1 & d2)
     if case.get("default_real"):
         res["expectation"] = guarded(lambda: fj(d1.expectation()))      # real_function defaults to the identity
     else:
@@ -311,6 +343,31 @@ def one(case, pl):
         a_, b_ = run(random.Random(seed)), run(random.Random(seed))
         return {"seq": a_, "same": a_ == b_}
     res["mixed"] = guarded(mixed)
+    # one object as both operands
+    res["self_and"] = guarded(lambda: items_of(d1 & d1))
+    res["self_mix"] = guarded(lambda: items_of(d1 | d1))
+    res["self_joint"] = guarded(lambda: items_of(d1.joint(d1)))
+    # results of the FIRST calls, asked again after everything else (also on events never looked up before)
+    def stale():
+        for name, obj in first.items():
+            now = items_of(obj)
+            if now != res[name]:
+                return "%s result changed after later calls: %r -> %r" % (name, res[name], now)
+            look = dict((repr(dec(e)), p) for e, p in now)
+            for e in universe:
+                try:
+                    got = fj(obj.prob(e))
+                except BaseException as ex:
+                    return "%s result: prob(%r) raises %s" % (name, e, type(ex).__name__)
+                want = [p for e2, p in zip([dec(x) for x, _ in now], [p for _, p in now]) if e2 == e]
+                if got != (want[0] if want else fj(0.0)):
+                    return "%s result: prob(%r) = %r, items say %r" % (name, e, got, want)
+        return True
+    res["stale_ok"] = guarded(stale)
+    # the same specification built again after all the unrelated constructions in between
+    res["rebuild_same"] = guarded(lambda: items_of(build(case["d1"])) == res["d1"]["items"]
+                                  and items_of(build(case["d2"])) == res["d2"]["items"])
+    res["inputs_unchanged"] = guarded(inputs_unchanged)
     return res
 
 
